@@ -65,6 +65,10 @@ CHECKS = {
          "Templates = program pool (every 499th / 41st member of the quick S family, clean and injected): the full orbit of the temporaries a template mentions (all injective assignments of <= 3 slots to t0-t6), the full orbit of its saved registers (<= 3 slots to s0-s11, up to 1320) and label renamings from an 8-identifier pool; the diagnostics of every renamed program, compared by (code, statement index, operand role, register mapped back), must equal the template's.",
          "Trusted: renaming on the harness AST. Canonical hash-order schedule (label hash order is C10's subject).",
          "DESIGN.md 3 C14"),
+ "C15": ("bounded-exhaustive enumeration of (program x cut into an include tree x reader fault sequence); differential oracle against the pasted file through a flattener; CLI conformance on materialised trees",
+         "17 statement programs (incl. malformed ones) plus the program pool x every cut at up to 5/7 line boundaries into an include tree of <= 3/4 files and depth <= 3: through the in-memory FileReader the diagnostics mapped back to (code, original line, designated text) must equal those of the pasted file and each item must lie inside the file it is attributed to; for every tree every reader-answer sequence with one fault (thorough: two on every 7th tree) must yield exactly one error per refused import on its .include line and leave the rest analysed like the program without the refused file; every 23rd tree is written to disk and the rva binary must show exactly the base file's items plus the right 'other files' counter by default and everything with --all-files.",
+         "Trusted: flattener / tree builder. Cyclic and self-inclusion are decided under C06 (termination) - trees cut from a program are acyclic.",
+         "DESIGN.md 3 C15"),
  "C16": ("bounded-exhaustive enumeration of programs over a label-structure alphabet; oracle recomputed from the text (defined / undefined / duplicate labels) plus location checks by the locator",
          "All programs of 1..4 (quick) / 1..5 (thorough) lines over 17 symbols (definitions of A and B incl. duplicates, uses of A, B and undefined U, V in j / beq / jal / la, ret, an instruction, an exit, .data / .word / .text): Manager::run must succeed or fail with a specific error that names exactly the undefined labels at one of their uses, or the duplicated label at a later definition, or is otherwise located on text of the file - never a generic unexpected/assertion error, never the nil file; for every 50th failing program the error must be visible in the default output of the rva binary.",
          "Trusted: the harness's textual notion of definition/use. Programs are tiny; richer failure modes (if any exist) outside the alphabet are not covered.",
@@ -73,6 +77,10 @@ CHECKS = {
          "Complete enumeration of a finite family: ~8000 spellings (every boundary value 2^k, 2^k+-1 for k<=33 and bit patterns x decimal/hex/binary notation x sign x letter case x leading zeros, every printable ASCII character literal and escape, malformed spellings) x 4 operand contexts (li, lui, .word, csrr), each through the real lexer+parser and, for li/lui, the resulting Constant fact of the value analysis, in a release and an overflow-checked build; acceptance, value and error location are compared with literal semantics written in the harness.",
          "Trusted: the harness's literal semantics (accept iff well-formed and -2^31 <= v <= 2^32-1; value v mod 2^32; lui 0..2^20-1). Values between the boundary points are not enumerated. Leading-zero decimals, negative lui operands and CSR numbers > 4095 get no verdict.",
          "DESIGN.md 3 C17"),
+ "C18": ("bounded-exhaustive enumeration of (program x 16 CLI flag configurations) with format parsers; channel-agreement oracle against the library entry point",
+         "The 20 order-stress programs (incl. multi-file), one file per malformed line kind, the analysis-failure programs, tab-indented code and the program pool x all 16 combinations of --json/--compact/--no-color/--all-files of the rva binary plus RVParser::run: parsers for the compact line grammar, the pretty block grammar and the JSON shape extract (severity, title, file, line, columns); for equal file selection all channels must agree with the library; JSON must have exactly the documented keys and consistent raw offsets; titles non-empty; severity fixed per code; items sorted within a file; no escape sequences under --no-color; correct 'other files' counter; every pretty excerpt shows the item's line with the marker under the reported columns and of the reported length.",
+         "Trusted: the three format parsers. JSON is compared with the all-files selection (it has no base-only selection). File-UUID order independence of the same outputs is decided under C10.",
+         "DESIGN.md 3 C18"),
  "C19": ("bounded-exhaustive enumeration of dump values (all variants x boundary parameters, all pairs for injectivity) and of kernel-program dumps with single-fact perturbations",
          "(a) ~950 values - every AvailableValue variant x {0, 1, -1, 5, MIN, MAX} x registers/labels/CSR numbers, every MemoryLocation variant x boundary offsets incl. i32::MIN, every register set of <= 2 registers and the full set - each in a one-node dump: dump -> load -> dump is a textual fixed point, the loaded structure equals the written one field by field (through NodeWrapper's public fields, hook H7), and no two different values share a dump (all pairs); (b) the dump of every 41st/31st kernel program: same round trip, every single-fact perturbation of the analysis result (a live-in/out bit, a register fact, a stack fact, an edge, at every node) must change the dump, and the --yaml output of the rva binary must load to the same structure; release and overflow-checked builds.",
          "Trusted: serde_yaml. Function-annotation perturbations are not possible through the public API and are covered only by the round trip.",
